@@ -10,8 +10,6 @@ __all__ = ["DeduplicateInitializersPass", "DeduplicateHashedInitializersPass"]
 import hashlib
 import logging
 
-import numpy as np
-
 import onnx_ir as ir
 
 logger = logging.getLogger(__name__)
@@ -52,16 +50,16 @@ def _tobytes(val):
 
     However, 'string_data' yields a list of bytes which cannot be hashed, i.e.,
     cannot be used to index into a dict. To generate keys for identifying
-    tensors in initializer deduplication the following converts the list of
-    bytes to an array of fixed-length strings which can be flattened into a
-    bytes-string. This, together with the tensor shape, is sufficient for
-    identifying tensors for deduplication, but it differs from the
-    representation used for serializing tensors (that is string_data) by adding
-    padding bytes so that each string occupies the same number of consecutive
-    bytes in the flattened .tobytes representation.
+    tensors in initializer deduplication the following joins the strings, each
+    prefixed with its length, into a single bytes-string. This, together with
+    the tensor shape, identifies a string tensor uniquely.
     """
     if val.dtype.is_string():
-        return np.array(val.string_data()).tobytes()
+        # Length-prefix every string so that the key is injective: NUL-padding to a
+        # fixed width would identify b"a" with b"a\x00".
+        return b"".join(
+            len(string).to_bytes(8, "little") + bytes(string) for string in val.string_data()
+        )
     return val.tobytes()
 
 
